@@ -419,7 +419,8 @@ def explore(ctx, name, tier):
         reps = LOCATION_STEPS.get(id(g), [])
         reps = list(reps[t1]) if len(reps) > t1 else []
         seen = set()
-        for bucket, ks in ((first, wins), (second, reps), (third, range(1, counts[t1] + 1, stride))):
+        entry = range(1, min(counts[t1], 40) + 1)       # the first statements of an operation: lookups, cache probes
+        for bucket, ks in ((first, wins), (first, entry), (second, reps), (third, range(1, counts[t1] + 1, stride))):
             for k in ks:
                 if k not in seen:
                     seen.add(k)
